@@ -2727,6 +2727,393 @@ fn predict_bhupred(a: &mut [u8], x0: usize, y0: usize, stride: usize) {
     a[(y0 + 3) * stride + x0 + 3] = l3;
 }
 
+/// Verification hooks (parsing correspondence): the parsing functions of `Vp8Decoder` at component level.
+/// `Vp8Parser` owns a real `Vp8Decoder` over an in-memory reader; every `read_*` method is a direct call of the
+/// private function of the same name; `state` / `set_state` copy the fields the parsing functions read or write
+/// to and from plain data.
+#[cfg(image_webp_verif)]
+pub(crate) mod verif_parse {
+    use super::*;
+    use std::io::Cursor;
+
+    /// Plain copy of a `MacroBlock` (enums as their `repr(i8)` discriminants).
+    #[derive(Clone, Debug, PartialEq, Eq, Default)]
+    pub struct MbState {
+        /// `bpred` (IntraMode discriminants)
+        pub bpred: [u8; 16],
+        /// `complexity`
+        pub complexity: [u8; 9],
+        /// `luma_mode` (LumaMode discriminant)
+        pub luma_mode: u8,
+        /// `chroma_mode` (ChromaMode discriminant)
+        pub chroma_mode: u8,
+        /// `segmentid`
+        pub segmentid: u8,
+        /// `coeffs_skipped`
+        pub coeffs_skipped: bool,
+        /// `non_zero_coeffs`
+        pub non_zero_coeffs: bool,
+    }
+
+    /// Plain copy of a `Segment`.
+    #[derive(Clone, Copy, Debug, PartialEq, Eq, Default)]
+    pub struct SegState {
+        /// `ydc`
+        pub ydc: i16,
+        /// `yac`
+        pub yac: i16,
+        /// `y2dc`
+        pub y2dc: i16,
+        /// `y2ac`
+        pub y2ac: i16,
+        /// `uvdc`
+        pub uvdc: i16,
+        /// `uvac`
+        pub uvac: i16,
+        /// `delta_values`
+        pub delta_values: bool,
+        /// `quantizer_level`
+        pub quantizer_level: i8,
+        /// `loopfilter_level`
+        pub loopfilter_level: i8,
+    }
+
+    /// Registers of an `ArithmeticDecoder`.
+    #[derive(Clone, Copy, Debug, PartialEq, Eq, Default)]
+    pub struct DecState {
+        /// `state.chunk_index`
+        pub chunk_index: usize,
+        /// `state.value`
+        pub value: u64,
+        /// `state.range`
+        pub range: u32,
+        /// `state.bit_count`
+        pub bit_count: i32,
+        /// `final_bytes`
+        pub final_bytes: [u8; 3],
+        /// `final_bytes_remaining`
+        pub final_bytes_remaining: i8,
+    }
+
+    /// The header fields of `Frame`.
+    #[derive(Clone, Copy, Debug, PartialEq, Eq, Default)]
+    pub struct FrameState {
+        /// `width`
+        pub width: u16,
+        /// `height`
+        pub height: u16,
+        /// `keyframe`
+        pub keyframe: bool,
+        /// `version`
+        pub version: u8,
+        /// `for_display`
+        pub for_display: bool,
+        /// `pixel_type`
+        pub pixel_type: u8,
+        /// `filter_type`
+        pub filter_type: bool,
+        /// `filter_level`
+        pub filter_level: u8,
+        /// `sharpness_level`
+        pub sharpness_level: u8,
+    }
+
+    /// The fields of `Vp8Decoder` the parsing functions read or write.
+    #[derive(Clone, Debug, PartialEq, Eq)]
+    pub struct ParseState {
+        /// registers of `b`
+        pub b: DecState,
+        /// `mbwidth`
+        pub mbwidth: u16,
+        /// `mbheight`
+        pub mbheight: u16,
+        /// header fields of `frame`
+        pub frame: FrameState,
+        /// `segments_enabled`
+        pub segments_enabled: bool,
+        /// `segments_update_map`
+        pub segments_update_map: bool,
+        /// `segment`
+        pub segment: [SegState; 4],
+        /// `ref_delta`
+        pub ref_delta: [i32; 4],
+        /// `mode_delta`
+        pub mode_delta: [i32; 4],
+        /// registers of `partitions`
+        pub partitions: [DecState; 8],
+        /// `num_partitions`
+        pub num_partitions: u8,
+        /// `segment_tree_nodes[i].prob`
+        pub segment_tree_probs: [u8; 3],
+        /// `token_probs[i][j][k][t].prob`
+        pub token_probs: Box<[[[[u8; 11]; 3]; 8]; 4]>,
+        /// `prob_intra`
+        pub prob_intra: u8,
+        /// `prob_skip_false`
+        pub prob_skip_false: Option<u8>,
+        /// `top`
+        pub top: Vec<MbState>,
+        /// `left`
+        pub left: MbState,
+        /// bytes of the reader not yet consumed
+        pub reader_remaining: usize,
+    }
+
+    fn mb_to_state(m: &MacroBlock) -> MbState {
+        let mut bpred = [0u8; 16];
+        for (o, i) in bpred.iter_mut().zip(m.bpred.iter()) {
+            *o = *i as i8 as u8;
+        }
+        MbState {
+            bpred,
+            complexity: m.complexity,
+            luma_mode: m.luma_mode as i8 as u8,
+            chroma_mode: m.chroma_mode as i8 as u8,
+            segmentid: m.segmentid,
+            coeffs_skipped: m.coeffs_skipped,
+            non_zero_coeffs: m.non_zero_coeffs,
+        }
+    }
+
+    fn mb_from_state(s: &MbState) -> MacroBlock {
+        let mut bpred = [IntraMode::DC; 16];
+        for (o, i) in bpred.iter_mut().zip(s.bpred.iter()) {
+            *o = IntraMode::from_i8(*i as i8).expect("IntraMode discriminant");
+        }
+        MacroBlock {
+            bpred,
+            complexity: s.complexity,
+            luma_mode: LumaMode::from_i8(s.luma_mode as i8).expect("LumaMode discriminant"),
+            chroma_mode: ChromaMode::from_i8(s.chroma_mode as i8).expect("ChromaMode discriminant"),
+            segmentid: s.segmentid,
+            coeffs_skipped: s.coeffs_skipped,
+            non_zero_coeffs: s.non_zero_coeffs,
+        }
+    }
+
+    fn dec_to_state(d: &ArithmeticDecoder) -> DecState {
+        let (chunk_index, value, range, bit_count, final_bytes, final_bytes_remaining) = d.verif_state();
+        DecState { chunk_index, value, range, bit_count, final_bytes, final_bytes_remaining }
+    }
+
+    fn dec_set(d: &mut ArithmeticDecoder, s: &DecState) {
+        d.verif_set_state((s.chunk_index, s.value, s.range, s.bit_count, s.final_bytes, s.final_bytes_remaining));
+    }
+
+    /// the chunk buffer vp8.rs prepares for a partition, then `ArithmeticDecoder::init`
+    fn dec_init(d: &mut ArithmeticDecoder, data: &[u8]) -> Result<(), DecodingError> {
+        let size = data.len();
+        let mut buf = vec![[0u8; 4]; (size + 3) / 4];
+        buf.as_mut_slice().as_flattened_mut()[..size].copy_from_slice(data);
+        d.init(buf, size)
+    }
+
+    /// A `Vp8Decoder` over an in-memory reader.
+    pub struct Vp8Parser {
+        d: Vp8Decoder<Cursor<Vec<u8>>>,
+    }
+
+    impl Vp8Parser {
+        /// `Vp8Decoder::new` over `bytes`
+        pub fn new(bytes: Vec<u8>) -> Self {
+            Vp8Parser { d: Vp8Decoder::new(Cursor::new(bytes)) }
+        }
+
+        /// copies the parsing state out
+        pub fn state(&self) -> ParseState {
+            let d = &self.d;
+            let mut token_probs = Box::new([[[[0u8; 11]; 3]; 8]; 4]);
+            for i in 0..4 {
+                for j in 0..8 {
+                    for k in 0..3 {
+                        for t in 0..11 {
+                            token_probs[i][j][k][t] = d.token_probs[i][j][k][t].prob;
+                        }
+                    }
+                }
+            }
+            let mut segment = [SegState::default(); 4];
+            for (o, s) in segment.iter_mut().zip(d.segment.iter()) {
+                *o = SegState {
+                    ydc: s.ydc,
+                    yac: s.yac,
+                    y2dc: s.y2dc,
+                    y2ac: s.y2ac,
+                    uvdc: s.uvdc,
+                    uvac: s.uvac,
+                    delta_values: s.delta_values,
+                    quantizer_level: s.quantizer_level,
+                    loopfilter_level: s.loopfilter_level,
+                };
+            }
+            let mut partitions = [DecState::default(); 8];
+            for (o, p) in partitions.iter_mut().zip(d.partitions.iter()) {
+                *o = dec_to_state(p);
+            }
+            let total = d.r.get_ref().len();
+            let pos = (d.r.position() as usize).min(total);
+            ParseState {
+                b: dec_to_state(&d.b),
+                mbwidth: d.mbwidth,
+                mbheight: d.mbheight,
+                frame: FrameState {
+                    width: d.frame.width,
+                    height: d.frame.height,
+                    keyframe: d.frame.keyframe,
+                    version: d.frame.version,
+                    for_display: d.frame.for_display,
+                    pixel_type: d.frame.pixel_type,
+                    filter_type: d.frame.filter_type,
+                    filter_level: d.frame.filter_level,
+                    sharpness_level: d.frame.sharpness_level,
+                },
+                segments_enabled: d.segments_enabled,
+                segments_update_map: d.segments_update_map,
+                segment,
+                ref_delta: d.ref_delta,
+                mode_delta: d.mode_delta,
+                partitions,
+                num_partitions: d.num_partitions,
+                segment_tree_probs: [
+                    d.segment_tree_nodes[0].prob,
+                    d.segment_tree_nodes[1].prob,
+                    d.segment_tree_nodes[2].prob,
+                ],
+                token_probs,
+                prob_intra: d.prob_intra,
+                prob_skip_false: d.prob_skip_false,
+                top: d.top.iter().map(mb_to_state).collect(),
+                left: mb_to_state(&d.left),
+                reader_remaining: total - pos,
+            }
+        }
+
+        /// copies a parsing state in (decoder registers included; the decoders' data and the reader are set by
+        /// `init_b`, `init_partition`, `new`)
+        pub fn set_state(&mut self, s: &ParseState) {
+            let d = &mut self.d;
+            dec_set(&mut d.b, &s.b);
+            d.mbwidth = s.mbwidth;
+            d.mbheight = s.mbheight;
+            d.frame.width = s.frame.width;
+            d.frame.height = s.frame.height;
+            d.frame.keyframe = s.frame.keyframe;
+            d.frame.version = s.frame.version;
+            d.frame.for_display = s.frame.for_display;
+            d.frame.pixel_type = s.frame.pixel_type;
+            d.frame.filter_type = s.frame.filter_type;
+            d.frame.filter_level = s.frame.filter_level;
+            d.frame.sharpness_level = s.frame.sharpness_level;
+            d.segments_enabled = s.segments_enabled;
+            d.segments_update_map = s.segments_update_map;
+            for (o, i) in d.segment.iter_mut().zip(s.segment.iter()) {
+                *o = Segment {
+                    ydc: i.ydc,
+                    yac: i.yac,
+                    y2dc: i.y2dc,
+                    y2ac: i.y2ac,
+                    uvdc: i.uvdc,
+                    uvac: i.uvac,
+                    delta_values: i.delta_values,
+                    quantizer_level: i.quantizer_level,
+                    loopfilter_level: i.loopfilter_level,
+                };
+            }
+            d.ref_delta = s.ref_delta;
+            d.mode_delta = s.mode_delta;
+            for (o, i) in d.partitions.iter_mut().zip(s.partitions.iter()) {
+                dec_set(o, i);
+            }
+            d.num_partitions = s.num_partitions;
+            for i in 0..3 {
+                d.segment_tree_nodes[i].prob = s.segment_tree_probs[i];
+            }
+            for i in 0..4 {
+                for j in 0..8 {
+                    for k in 0..3 {
+                        for t in 0..11 {
+                            d.token_probs[i][j][k][t].prob = s.token_probs[i][j][k][t];
+                        }
+                    }
+                }
+            }
+            d.prob_intra = s.prob_intra;
+            d.prob_skip_false = s.prob_skip_false;
+            d.top = s.top.iter().map(mb_from_state).collect();
+            d.left = mb_from_state(&s.left);
+        }
+
+        /// gives `b` the data of a first partition, as `read_frame_header` does
+        pub fn init_b(&mut self, data: &[u8]) -> Result<(), DecodingError> {
+            dec_init(&mut self.d.b, data)
+        }
+
+        /// gives `partitions[i]` the data of a token partition, as `init_partitions` does
+        pub fn init_partition(&mut self, i: usize, data: &[u8]) -> Result<(), DecodingError> {
+            dec_init(&mut self.d.partitions[i], data)
+        }
+
+        /// `Vp8Decoder::read_frame_header`
+        pub fn read_frame_header(&mut self) -> Result<(), DecodingError> {
+            self.d.read_frame_header()
+        }
+
+        /// `Vp8Decoder::read_segment_updates`
+        pub fn read_segment_updates(&mut self) -> Result<(), DecodingError> {
+            self.d.read_segment_updates()
+        }
+
+        /// `Vp8Decoder::read_quantization_indices`
+        pub fn read_quantization_indices(&mut self) -> Result<(), DecodingError> {
+            self.d.read_quantization_indices()
+        }
+
+        /// `Vp8Decoder::read_loop_filter_adjustments`
+        pub fn read_loop_filter_adjustments(&mut self) -> Result<(), DecodingError> {
+            self.d.read_loop_filter_adjustments()
+        }
+
+        /// `Vp8Decoder::update_token_probabilities`
+        pub fn update_token_probabilities(&mut self) -> Result<(), DecodingError> {
+            self.d.update_token_probabilities()
+        }
+
+        /// `Vp8Decoder::init_partitions`
+        pub fn init_partitions(&mut self, n: usize) -> Result<(), DecodingError> {
+            self.d.init_partitions(n)
+        }
+
+        /// `Vp8Decoder::read_macroblock_header`
+        pub fn read_macroblock_header(&mut self, mbx: usize) -> Result<MbState, DecodingError> {
+            self.d.read_macroblock_header(mbx).map(|m| mb_to_state(&m))
+        }
+
+        /// `Vp8Decoder::read_residual_data`
+        pub fn read_residual_data(
+            &mut self,
+            mb: &MbState,
+            mbx: usize,
+            p: usize,
+        ) -> Result<([i32; 384], bool), DecodingError> {
+            let m = mb_from_state(mb);
+            self.d.read_residual_data(&m, mbx, p)
+        }
+
+        /// `Vp8Decoder::read_coefficients`
+        pub fn read_coefficients(
+            &mut self,
+            block: &mut [i32; 16],
+            p: usize,
+            plane: usize,
+            complexity: usize,
+            dcq: i16,
+            acq: i16,
+        ) -> Result<bool, DecodingError> {
+            self.d.read_coefficients(block, p, plane, complexity, dcq, acq)
+        }
+    }
+}
+
 #[cfg(all(test, feature = "_benchmarks"))]
 mod benches {
     use super::*;
